@@ -2273,8 +2273,8 @@ def r_indexspace(ctx) -> RuleResult:
                 elif isinstance(e2, ast.Name) and isinstance(n.generators[0].target, ast.Name) and e2.id == n.generators[0].target.id and "endpt" in norm(n).lower():
                     offs.append((f, e2, "ENDPTS", 0))
     cs = {c for _, _, _, c in offs}
-    ok = len(cs) == 1 and len(offs) >= 3
-    if len(cs) == 1 and not {2, 4, 5} <= {k for _, _, k, _ in offs}:
+    ok = len(cs) == 1 and (len(offs) >= 3 or bool(res.findings))
+    if len(cs) == 1 and not {2, 4, 5} <= {k for _, _, k, _ in offs} and not res.findings:
         raise AnalysisError(f"R-INDEXSPACE: the conversions of the index fields (tokens 2, 4, 5) are not all found in the V3000 reader (seen: {sorted({str(k) for _, _, k, _ in offs})})")
     res.inst(fi.fq, f"index fields {[(k, c) for _, _, k, c in offs]} carry one common offset", "ok" if ok else "fail")
     if not ok and offs:
